@@ -274,12 +274,27 @@ def build_script(sd):
     return st.rdscript_from_dict(copy.deepcopy(sd))
 
 
-def member(sd, U1, nsteps):
-    """everything observed on one member: state, chem, dstate in U1, Euler samples — all in SI"""
+def refused_state_assignment(system):
+    """try to assign a state of the wrong dimension (concentrations); returns None when it was refused (as it must be), else a
+    description of what was accepted.  The object must afterwards be exactly as before (judged by the pair comparison)."""
+    from strengths.units import UnitArray
+    n = len(system.state.value)
+    try:
+        system.state = UnitArray([3.0 + k for k in range(n)], "molecule/µm3")
+    except Exception:  # noqa
+        return None
+    return "system.state = UnitArray(..., 'molecule/µm3') was accepted"
+
+
+def member(sd, U1, nsteps, refuse=False):
+    """everything observed on one member: state, chem, dstate in U1, Euler samples — all in SI.  With `refuse`, a refused
+    assignment of a wrong-dimension state is attempted on the system first (and on the script's own copy)."""
     import strengths.kinetics as kin
     script = build_script(sd)
     system = script.system
     out = {"script": script, "system": system}
+    if refuse:
+        out["accepted"] = refused_state_assignment(system)
     out["state"] = L.state_si(system.state)
     out["chem"] = [int(v) for v in system.chemostats]
     try:
@@ -461,19 +476,22 @@ def run(ctx):
         R = Rescaler(rng)
         sdB = R.script(sdA)
         U1, U2 = L.rand_sys(rng), L.rand_sys(rng)
-        case = {"kind": "pair", "A": sdA, "B": sdB, "U1": list(U1), "U2": list(U2), "nsteps": NSTEPS, "phys": C1.phys_dump(phys)}
+        refuse_on = rng.choice(["A", "B", None])
+        case = {"kind": "pair", "A": sdA, "B": sdB, "U1": list(U1), "U2": list(U2), "nsteps": NSTEPS, "phys": C1.phys_dump(phys),
+                "refused_state_assignment_on": refuse_on}
+        ctx.count("refused_state_assignment_on_%s" % refuse_on)
         fp = (C1.fingerprint(sdA), C1.fingerprint(sdB))
         for lv in set(R.changed):
             ctx.count("level_changed_" + lv)
         ctx.count("explicit_replacements", R.explicit)
         ctx.count("pairs")
         try:
-            a = member(sdA, U1, NSTEPS)
+            a = member(sdA, U1, NSTEPS, refuse=(refuse_on == "A"))
         except Exception as ex:  # noqa
             ctx.violation("units:member-raises", "the description raised %s: %s" % (type(ex).__name__, str(ex)[:160]), case, impl=type(ex).__name__)
             continue
         try:
-            b = member(sdB, U2, NSTEPS)
+            b = member(sdB, U2, NSTEPS, refuse=(refuse_on == "B"))
         except Exception as ex:  # noqa
             ctx.violation("units:rescaled-raises", "the re-scaled description raised %s: %s (levels changed: %s)" % (type(ex).__name__, str(ex)[:160], sorted(set(R.changed))),
                           case, impl=type(ex).__name__)
@@ -548,6 +566,12 @@ def break_desc(rng, desc):
 
 def compare_pair(ctx, a, b, phys, case, changed):
     lv = ",".join(changed) or "none"
+    if case.get("refused_state_assignment_on"):
+        lv += "; a wrong-dimension state assignment was attempted (and must have been refused without effect) on member " + case["refused_state_assignment_on"]
+    for tag, m in (("A", a), ("B", b)):
+        if m.get("accepted"):
+            ctx.violation("state-setter:accepts-wrong-dimension", "member %s: %s" % (tag, m["accepted"]), case, impl="accepted", expected="ValueError")
+            return
     # ---- initial state and chemostats
     if len(a["state"]) != len(b["state"]) or not all(close(float(x), y, rel=1e-12) if y != 0 else x == 0 for x, y in zip(a["state"], b["state"])):
         bad = next((e for e, (x, y) in enumerate(zip(a["state"], b["state"])) if not (close(float(x), y, rel=1e-12) if y != 0 else x == 0)), None)
@@ -652,8 +676,8 @@ def replay(ctx, rec):
         check_dxdtf_pair(rec_, case)
         return not rec_.v, {"failures": rec_.v}
     try:
-        a = member(case["A"], tuple(case["U1"]), case["nsteps"])
-        b = member(case["B"], tuple(case["U2"]), case["nsteps"])
+        a = member(case["A"], tuple(case["U1"]), case["nsteps"], refuse=(case.get("refused_state_assignment_on") == "A"))
+        b = member(case["B"], tuple(case["U2"]), case["nsteps"], refuse=(case.get("refused_state_assignment_on") == "B"))
     except Exception as ex:  # noqa
         return False, {"impl": "raised " + repr(ex)}
     compare_pair(rec_, a, b, C1.phys_load(case["phys"]), case, [])
